@@ -79,8 +79,14 @@ impl Pattern {
     /// Creates `Pattern` instance from raw regular expression. Supports PCRE syntax.
     /// Allows to specify case sensitivity
     pub fn regex_with(pattern: &str, opts: &PatternOpts) -> Result<Pattern, PatternError> {
-        let pattern = pattern.trim_start_matches('^');
-        let pattern = pattern.trim_end_matches('$');
+        let mut pattern = pattern.trim_start_matches('^');
+        // strip the end anchor, but not an escaped `$` that matches a literal dollar sign
+        while let Some(rest) = pattern.strip_suffix('$') {
+            if rest.chars().rev().take_while(|c| *c == '\\').count() % 2 == 1 {
+                break;
+            }
+            pattern = rest;
+        }
         let pattern = pattern.to_string();
 
         let grouped = Self::group_alternation(&pattern);
